@@ -317,6 +317,32 @@ fn c19(tier: Tier, seed: u64) -> Verdict {
                 i += SHARDS as u64;
             }
         }
+        // long inputs: a valid (ASCII or multi-byte) prefix of every length up to 200 bytes in front of an invalid
+        // or truncated sequence, and the same without the bad tail
+        if m.violation.is_none() {
+            let tails: [&[u8]; 5] = [b"\xff", b"\xe2\x82", b"\xf0\x9f\x98", b"", b"\xc3\xa9tail"];
+            'l: for n in (0..=200usize).filter(|n| n % SHARDS == shard) {
+                for fill in [&b"x"[..], "é".as_bytes(), "€".as_bytes(), "𝄞".as_bytes()] {
+                    for tail in tails {
+                        let mut b: Vec<u8> = Vec::new();
+                        while b.len() + fill.len() <= n {
+                            b.extend_from_slice(fill);
+                        }
+                        b.extend_from_slice(tail);
+                        m.evaluations += 2;
+                        if let Err(d) = check_bytes(&b) {
+                            m.violation = Some(viol(json!({"kind": "serde_bytes", "hex": hex_encode(&b)}), "C19.deserialize_bytes", d));
+                            break 'l;
+                        }
+                        if let Err(d) = check_unstructured(&b) {
+                            m.violation = Some(viol(json!({"kind": "unstructured", "hex": hex_encode(&b)}), "C19.arbitrary", d));
+                            break 'l;
+                        }
+                        m.distinct.insert(digest(&b));
+                    }
+                }
+            }
+        }
         if shard == 0 {
             m.samples.push(json!({"kind": "serde_bytes", "hex": "61e282"}));
             m.samples.push(json!({"kind": "unstructured", "hex": "6101"}));
@@ -327,7 +353,7 @@ fn c19(tier: Tier, seed: u64) -> Verdict {
     // (2) texts
     if merged.violation.is_none() {
         let n = tier.pick(40_000, 600_000);
-        let strat = || prop_oneof![2 => text_strategy(300), 2 => escape_heavy()].boxed();
+        let strat = || prop_oneof![2 => text_strategy(300), 2 => escape_heavy(), 1 => text_strategy(3000)].boxed();
         let m = run_sharded("C19", seed, 0, n, strat, |t: &String, _| {
             let mut st = CaseStats::default();
             st.evaluations = 1;
